@@ -512,11 +512,30 @@ theorem C18_ids (w v : Nat) (hw : w = 1 ∨ w = 2 ∨ w = 4 ∨ w = 8) (hv : v <
   have : W0 f.width := by unfold W0; omega
   rw [ByteField.new_nat this, if_pos b, ← c]
 
-/-- `TransactionId.__eq__` / `__hash__` agree on the decoded and the original ID (they compare the
-    two values; the round-trip theorem gives equality of the whole objects, widths included) -/
-theorem C18_transaction_id_eq (a b : TransactionId) (h : a = b) :
-    a.beq b = true ∧ a.hashKey = b.hashKey := by
-  subst h; simp [TransactionId.beq]
+/-- **`TransactionId.__eq__` / `__hash__` are functions of the two VALUES** (source entity ID value,
+    sequence number value; the field widths are not compared): two transaction IDs with equal values
+    are `==` and hash equal — whatever their widths —, two with a different source-ID value or a
+    different sequence-number value are not `==`, and `==` holds exactly when the hashed tuples are
+    equal. (For the decoded against the original ID the round-trip theorem gives more: equality of
+    the whole objects, widths included.) -/
+theorem C18_transaction_id_eq (a b : TransactionId) :
+    (a.sourceId.value = b.sourceId.value ∧ a.seqNum.value = b.seqNum.value →
+      a.beq b = true ∧ b.beq a = true ∧ a.hashKey = b.hashKey) ∧
+    (a.sourceId.value ≠ b.sourceId.value ∨ a.seqNum.value ≠ b.seqNum.value →
+      a.beq b = false ∧ b.beq a = false ∧ a.hashKey ≠ b.hashKey) ∧
+    (a.beq b = true ↔ a.hashKey = b.hashKey) := by
+  refine ⟨fun ⟨h1, h2⟩ => ?_, fun h => ?_, ?_⟩
+  · simp [TransactionId.beq, TransactionId.hashKey, h1, h2]
+  · simp only [TransactionId.beq, TransactionId.hashKey, Bool.and_eq_false_iff, beq_eq_false_iff_ne, ne_eq,
+      Prod.mk.injEq, not_and]
+    rcases h with h | h
+    · exact ⟨.inl h, .inl (fun e => h e.symm), fun e => absurd e h⟩
+    · exact ⟨.inr h, .inr (fun e => h e.symm), fun _ => h⟩
+  · simp [TransactionId.beq, TransactionId.hashKey]
+
+-- equal values in different widths are `==`; one differing value is not
+example : TransactionId.beq ⟨⟨1, 5, [5]⟩, ⟨2, 7, [0, 7]⟩⟩ ⟨⟨4, 5, [0, 0, 0, 5]⟩, ⟨1, 7, [7]⟩⟩ = true ∧
+    TransactionId.beq ⟨⟨1, 5, [5]⟩, ⟨2, 7, [0, 7]⟩⟩ ⟨⟨1, 5, [5]⟩, ⟨2, 8, [0, 8]⟩⟩ = false := by decide
 
 -- the library's second length guard of `get_originating_transaction_id` is too weak (it does not
 -- count the six octets before the fields): a value announcing 8 + 8 octets but carrying 8 + 4 is
